@@ -11,9 +11,11 @@ package main
 
 import (
 	"fmt"
+	"reflect"
 	"sort"
 	"sync"
 	"time"
+	"unsafe"
 
 	dkg "go.dedis.ch/kyber/v4/share/dkg/pedersen"
 	"go.dedis.ch/kyber/v4/sign/schnorr"
@@ -22,13 +24,13 @@ import (
 )
 
 type pBoard struct {
-	mu     *sync.Mutex
-	deals  *[]*dkg.DealBundle
-	resps  *[]*dkg.ResponseBundle
-	justs  *[]*dkg.JustificationBundle
-	inD    chan dkg.DealBundle
-	inR    chan dkg.ResponseBundle
-	inJ    chan dkg.JustificationBundle
+	mu    *sync.Mutex
+	deals *[]*dkg.DealBundle
+	resps *[]*dkg.ResponseBundle
+	justs *[]*dkg.JustificationBundle
+	inD   chan dkg.DealBundle
+	inR   chan dkg.ResponseBundle
+	inJ   chan dkg.JustificationBundle
 }
 
 func (b *pBoard) PushDeals(d *dkg.DealBundle) {
@@ -345,8 +347,14 @@ func c11Protocol(c *kc.Ctx, rng *kc.Rng) {
 					if !mock && !c.Thorough() && shape != "grow" {
 						continue
 					}
-					c11ProtoReshare(c, mock, n, t, shape, newN/2+1, fast, rng.Fork(fmt.Sprint("PR", mock, n, shape, fast)))
+					c11ProtoReshare(c, mock, n, t, shape, newN/2+1, fast, 0, rng.Fork(fmt.Sprint("PR", mock, n, shape, fast)))
 					scen++
+					// one member of the new group complains falsely (about one dealer; about n-t+1 dealers): every
+					// dealer answers, keeps its place, and the run ends like the honest one
+					for _, k := range []int{1, n - t + 1} {
+						c11ProtoReshare(c, mock, n, t, shape, newN/2+1, fast, k, rng.Fork(fmt.Sprint("PRC", mock, n, shape, fast, k)))
+						scen++
+					}
 				}
 			}
 		}
@@ -358,9 +366,9 @@ func c11Protocol(c *kc.Ctx, rng *kc.Rng) {
 // its phase transitions and, in fast-sync mode, its early transitions): group shapes same / overlap / disjoint /
 // grow / shrink on top of an honest fresh round. "When everyone is honest, everyone completes": every member
 // of the new group ends with a result, all results agree, contain every old dealer, and keep the public key.
-func c11ProtoReshare(c *kc.Ctx, mock bool, n, t int, shape string, newT int, fast bool, rng *kc.Rng) {
+func c11ProtoReshare(c *kc.Ctx, mock bool, n, t int, shape string, newT int, fast bool, complaints int, rng *kc.Rng) {
 	sp := &c11Spec{mock: mock, n: n, t: t, reshare: shape, newT: newT}
-	desc := fmt.Sprintf("protocol resharing mock=%v n=%d t=%d shape=%s newT=%d fast=%v", mock, n, t, shape, newT, fast)
+	desc := fmt.Sprintf("protocol resharing mock=%v n=%d t=%d shape=%s newT=%d fast=%v false-complaints-by-one-new-member=%d", mock, n, t, shape, newT, fast, complaints)
 	viol := func(key, what string) {
 		c.Violation("protocol:"+key, what, map[string]any{"scenario": desc})
 	}
@@ -456,6 +464,44 @@ func c11ProtoReshare(c *kc.Ctx, mock bool, n, t int, shape string, newT int, fas
 	mu.Lock()
 	rs := append([]*dkg.ResponseBundle{}, resps...)
 	mu.Unlock()
+	// the false complainer: the LAST member of the new group (in the shapes with new keys, a key no dealer holds)
+	var liar *rnode
+	var accused []uint32
+	if complaints > 0 {
+		var liarConf *dkg.Config
+		for i, x := range rr.nodes {
+			if x.inNew {
+				liar, liarConf = nodes[i], x.conf
+			}
+		}
+		for _, x := range rr.nodes {
+			if x.inOld && len(accused) < complaints {
+				accused = append(accused, x.oidx)
+			}
+		}
+		fb := &dkg.ResponseBundle{ShareIndex: liar.idx, SessionID: liarConf.Nonce}
+		for k, b := range rs {
+			if b.ShareIndex == liar.idx {
+				fb = copyRespBundle(b)
+				rs = append(rs[:k:k], rs[k+1:]...)
+				break
+			}
+		}
+		for _, a := range accused {
+			found := false
+			for k := range fb.Responses {
+				if fb.Responses[k].DealerIndex == a {
+					fb.Responses[k].Status, found = dkg.Complaint, true
+				}
+			}
+			if !found {
+				fb.Responses = append(fb.Responses, dkg.Response{DealerIndex: a, Status: dkg.Complaint})
+			}
+		}
+		h, _ := fb.Hash()
+		fb.Signature, _ = liarConf.Auth.Sign(liar.party.long, h)
+		rs = append(rs, fb)
+	}
 	for _, nd := range nodes {
 		nd := nd
 		for _, k := range rngPerm(rng, len(rs)) {
@@ -504,21 +550,38 @@ func c11ProtoReshare(c *kc.Ctx, mock bool, n, t int, shape string, newT int, fas
 			}
 		}
 		c.Eval(1)
-		if !nd.inNew {
+		if !nd.inNew || nd == liar {
 			continue
+		}
+		who := "everybody is honest"
+		if liar != nil {
+			who = fmt.Sprintf("new member %d complains falsely about dealers %v, everybody else is honest", liar.idx, accused)
 		}
 		if nd.res == nil || nd.res.Result == nil {
 			e := "no result"
 			if nd.res != nil && nd.res.Error != nil {
 				e = nd.res.Error.Error()
 			}
-			viol("reshare:honest-run-incomplete", fmt.Sprintf("everybody is honest; member %d of the new group: %s", nd.idx, e))
+			viol("reshare:honest-run-incomplete", fmt.Sprintf("%s; member %d of the new group: %s", who, nd.idx, e))
 			return
 		}
 		r := nd.res.Result
 		if len(r.QUAL) != nNew {
-			viol("reshare:qual-size", fmt.Sprintf("everybody is honest; member %d of the new group ends with %d of %d qualified members", nd.idx, len(r.QUAL), nNew))
+			viol("reshare:qual-size", fmt.Sprintf("%s; member %d of the new group ends with %d of %d qualified members", who, nd.idx, len(r.QUAL), nNew))
 			return
+		}
+		if liar != nil {
+			// the accused dealers answered: their rows of the status matrix are clean again at every honest member
+			gen := reflect.ValueOf(nd.proto).Elem().FieldByName("dkg")
+			gen = reflect.NewAt(gen.Type(), unsafe.Pointer(gen.UnsafeAddr())).Elem()
+			st := gen.Elem().FieldByName("statuses")
+			sm := *(reflect.NewAt(st.Type(), unsafe.Pointer(st.UnsafeAddr())).Elem().Interface().(*dkg.StatusMatrix))
+			for _, a := range accused {
+				if !sm.AllTrue(a) {
+					viol("reshare:honest-dealer-disqualified", fmt.Sprintf("%s; member %d of the new group ends with a complaint in the row of dealer %d, who justified it", who, nd.idx, a))
+					return
+				}
+			}
 		}
 		if !r.Key.Commits[0].Equal(oldKey) {
 			viol("reshare:key-changed", fmt.Sprintf("member %d: the public key after resharing differs from the key before", nd.idx))
